@@ -41,6 +41,7 @@ SKELS = {
     "doc_cls": ([("cls", 0, [("doc", 1), ("ann", 2)])], 3),
     "cls_meth_kw": ([("cls", 0, [("kwfn", 1, [2], [3])]), ("ann", 4)], 5),
     # a function BEFORE the target whose body holds a string constant and a local class (names may coincide with the target's)
+    "cls_asg": ([("cls", 0, [("asg", 1), ("ann", 2)]), ("asg", 3)], 4),
     "fnbody_cls": ([("fnb", 0, [1], [("doc", 2), ("cls", 3, [("ann", 4)])]), ("cls", 5, [("ann", 6)])], 7),
 }
 ALPHA = "abcdefgh"
@@ -367,7 +368,7 @@ def obligations(tier, seed):
                           kf=[("KF-C15-fnreplace", "H.r_fnrepl(%s)" % a), ("KF-C15-nested", "H.r_nested(%s)" % a),
                               ("KF-C15-const", "H.r_const(%s)" % a)],
                           timeout=120 if tier == "quick" else 600, path_timeout=60, funcs=FUNCS))
-    quick = ["cls_ann", "cls_meth", "fn", "ann_cls", "cls_cls", "fn_cls", "cls_fn", "meth_meth", "nested", "doc_cls", "kwfn", "fnbody_cls"]
+    quick = ["cls_ann", "cls_meth", "fn", "ann_cls", "cls_cls", "fn_cls", "cls_fn", "meth_meth", "nested", "doc_cls", "kwfn", "fnbody_cls", "cls_asg", "imp_asg_fn"]
     ids = quick if tier == "quick" else [k for k in SKELS if not k.startswith(("dup_", "c11_", "c14_"))]
     for sid in ids:
         skel, k = SKELS[sid]
